@@ -1,5 +1,5 @@
 """C04 — output side effects occur once per execution, in search order."""
-from solver import Solver, goal_kinds, real_calls, is_none, some_payload, str_cell, const_false
+from solver import outcome_of, Solver, goal_kinds, real_calls, is_none, some_payload, str_cell, const_false
 from callgraph import CallGraph
 from sym import Walker, strip, show, mentions
 
@@ -136,10 +136,7 @@ def run(ctx):
                 continue
             g = gt[-1]
             res = g["result"]
-            dec = None
-            for c, val, bb in p.decisions:
-                if c == ("variant", res):
-                    dec = val
+            dec = outcome_of(p, res)
             arg = strip(g["args"][0])
             if dec == "Some":
                 if not mentions(v, lambda t: t == ("field", res, "Some.0")):
